@@ -23,13 +23,12 @@ pub fn fn_terms(f: &Function) -> (r: Vec<(SortedIds, F64)>)
         fn_fin(*f) ==> ft_fin(r@),
         forall|j: int| 0 <= j < r.len() ==> ids_sorted((#[trigger] r[j]).0.0@) && forall|t: int| 0 <= t < r[j].0.0.len() ==> fn_used(*f).contains(r[j].0.0[t])
 { unimplemented!() }
-impl BinaryIdPair {
-    // TryFrom<SortedIds> for BinaryIdPair -> TryFrom<Vec<u64>> (slice patterns: outside Verus; exercised by the bounded stand-in)
-    #[verifier::external_body] pub fn try_from_sorted(ids: SortedIds) -> (r: Result<BinaryIdPair, VErr>)
-        ensures r is Ok ==> r->Ok_0.0 <= r->Ok_0.1 && (forall|t: int| 0 <= t < ids.0.len() ==> ids.0[t] == r->Ok_0.0 || ids.0[t] == r->Ok_0.1)
-            && (exists|t: int| 0 <= t < ids.0.len() && ids.0[t] == r->Ok_0.0) && (exists|t: int| 0 <= t < ids.0.len() && ids.0[t] == r->Ok_0.1),
-    { unimplemented!() }
-}
+// `ids.sort_unstable(); ids.dedup();` (std slice sort + Vec::dedup; T4): the distinct elements in strictly increasing order
+#[verifier::external_body] pub fn vec_sort_dedup(v: &mut Vec<u64>)
+    ensures forall|i: int, j: int| 0 <= i < j < final(v).len() ==> final(v)[i] < final(v)[j],
+        forall|x: u64| final(v)@.contains(x) <==> old(v)@.contains(x),
+        final(v).len() == old(v)@.to_set().len(),
+{ unimplemented!() }
 '''
 
 
@@ -113,3 +112,26 @@ def as_qubo_format():
                     assert(s[0] <= s[t0]); assert(s[t1] <= s[s.len() - 1]);
                     assert(s[0] == key.0 || s[0] == key.1); assert(s[s.len() - 1] == key.0 || s[s.len() - 1] == key.1);
                     assert(key == pair_of(s)); assert(two_vars(s)); }''')])
+
+
+def binary_id_pair_try_from():
+    POST = '''r is Ok <==> 1 <= ids@.to_set().len() <= 2,
+        // canonical pair over exactly the distinct ids of the list (x^k = x for binaries: a single id gives (a, a))
+        r is Ok ==> r->Ok_0.0 <= r->Ok_0.1 && (forall|t: int| 0 <= t < ids.len() ==> ids[t] == r->Ok_0.0 || ids[t] == r->Ok_0.1)
+            && (exists|t: int| 0 <= t < ids.len() && ids[t] == r->Ok_0.0) && (exists|t: int| 0 <= t < ids.len() && ids[t] == r->Ok_0.1),'''
+    u1 = Unit('TryFrom<Vec<u64>> for BinaryIdPair', 'sorted_ids.rs', 'try_from', impl=r'impl TryFrom<Vec<u64>> for BinaryIdPair \{',
+              sig='fn try_from(mut ids: Vec<u64>) -> Result<Self, Self::Error>', wrap=('impl BinaryIdPair {', '}'), mut_self=False,
+              header='''pub fn try_from(ids: Vec<u64>) -> (r: Result<Self, VErr>)
+    // R29: the slice-pattern match is an if-chain on the length.  Ok exactly when the list has one or two distinct ids
+    ensures ''' + POST,
+              rsubs=[(r'ids\.sort_unstable\(\);\s*ids\.dedup\(\);', 'let ghost ids0 = ids@; let mut ids = ids; vec_sort_dedup(&mut ids);', 1)],
+              proofs=[(('after', r'vec_sort_dedup\(&mut ids\);'), '''
+        proof {
+            assert forall|t: int| 0 <= t < ids0.len() implies ids@.contains(#[trigger] ids0[t]) by { assert(ids0.contains(ids0[t])); }
+            assert forall|t: int| 0 <= t < ids.len() implies ids0.contains(#[trigger] ids[t]) by { assert(ids@.contains(ids[t])); }
+        }''')])
+    u2 = Unit('TryFrom<SortedIds> for BinaryIdPair', 'sorted_ids.rs', 'try_from', impl=r'impl TryFrom<SortedIds> for BinaryIdPair \{',
+              sig='fn try_from(ids: SortedIds) -> Result<Self, Self::Error>', wrap=('impl BinaryIdPair {', '}'),
+              header='''pub fn try_from_sorted(ids: SortedIds) -> (r: Result<Self, VErr>)
+    ensures ''' + POST.replace('ids@', 'ids.0@').replace('ids.len()', 'ids.0.len()').replace('ids[t]', 'ids.0[t]'))
+    return [u1, u2]
